@@ -16,25 +16,78 @@ Proof.
   destruct l as [|y l]; [cbn in H; contradiction|]. cbn [skipn] in H. right. apply IH; exact H.
 Qed.
 
-Lemma fold_record_app : forall xs log, fold_left record xs log = log ++ map norm xs.
+Lemma record_fresh : forall log a, dup_id log a = false -> record log a = (log ++ [norm a], true).
+Proof. intros log a H. unfold record. now rewrite H. Qed.
+
+Lemma record_dup : forall log a, dup_id log a = true -> record log a = (log, false).
+Proof. intros log a H. unfold record. now rewrite H. Qed.
+
+Lemma rec1_ext : forall log a, exists ext, rec1 log a = log ++ ext.
 Proof.
-  induction xs as [|x xs IH]; intros log; cbn [fold_left map].
-  - now rewrite app_nil_r.
-  - rewrite IH. unfold record. now rewrite <- app_assoc.
+  intros log a. unfold rec1, record. destruct (dup_id log a); cbn [fst].
+  - exists []. now rewrite app_nil_r.
+  - exists [norm a]. reflexivity.
 Qed.
 
-(** the log is exactly what was recorded: nothing is dropped, reordered or rewritten *)
-Lemma log_after_recorded : forall ops log, log_after log ops = log ++ recorded ops.
+Lemma fold_rec1_ext : forall xs log, exists ext, fold_left rec1 xs log = log ++ ext.
+Proof.
+  induction xs as [|x xs IH]; intros log; cbn [fold_left].
+  - exists []. now rewrite app_nil_r.
+  - destruct (rec1_ext log x) as [e1 E1]. destruct (IH (rec1 log x)) as [e2 E2].
+    exists (e1 ++ e2). rewrite E2, E1. now rewrite app_assoc.
+Qed.
+
+Lemma astep_ext : forall log o, exists ext, fst (astep log o) = log ++ ext.
+Proof.
+  intros log [a|s n|q]; cbn [astep fst].
+  - apply rec1_ext.
+  - apply fold_rec1_ext.
+  - exists []. now rewrite app_nil_r.
+Qed.
+
+(** the log only grows: whatever the operations, what was in it stays in it, in place *)
+Lemma log_after_ext : forall ops log, exists ext, log_after log ops = log ++ ext.
 Proof.
   unfold log_after.
-  induction ops as [|o ops IH]; intros log; cbn [fold_left recorded flat_map].
-  - now rewrite app_nil_r.
-  - rewrite IH. destruct o as [a|s n|q]; cbn [astep fst].
-    + unfold record. now rewrite <- app_assoc.
-    + rewrite fold_record_app. now rewrite <- app_assoc.
-    + reflexivity.
+  induction ops as [|o ops IH]; intros log; cbn [fold_left].
+  - exists []. now rewrite app_nil_r.
+  - destruct (astep_ext log o) as [e1 E1]. destruct (IH (fst (astep log o))) as [e2 E2].
+    exists (e1 ++ e2). rewrite E2, E1. now rewrite app_assoc.
 Qed.
 
+Lemma log_after_app : forall ops1 ops2 log, log_after log (ops1 ++ ops2) = log_after (log_after log ops1) ops2.
+Proof. intros. unfold log_after. now rewrite fold_left_app. Qed.
+
+(** non-blank ids stay unique *)
+Definition ids_unique (log : list att) : Prop :=
+  NoDup (filter (fun i => negb (N.eqb i 0)) (map a_id log)).
+
+Lemma has_id_in : forall log i, has_id log i = false -> ~ In i (map a_id log).
+Proof.
+  intros log i H Hin. apply in_map_iff in Hin as [a [E Ha]].
+  unfold has_id in H. assert (X : existsb (fun a0 => N.eqb (a_id a0) i) log = true).
+  { apply existsb_exists. exists a. split; [exact Ha|]. apply N.eqb_eq. exact E. }
+  rewrite X in H. discriminate.
+Qed.
+
+Lemma NoDup_app_one : forall (l : list N) x, NoDup l -> ~ In x l -> NoDup (l ++ [x]).
+Proof.
+  induction l as [|y l IH]; intros x ND NI; cbn [app].
+  - constructor; [intros []|constructor].
+  - inversion ND as [|y' l' Hy ND']; subst. constructor.
+    + intros Hin. apply in_app_or in Hin as [Hin|[Hin|[]]]; [exact (Hy Hin)|]. subst. apply NI. left. reflexivity.
+    + apply IH; [exact ND'|]. intros Hin. apply NI. right. exact Hin.
+Qed.
+
+Lemma rec1_unique : forall log a, ids_unique log -> ids_unique (rec1 log a).
+Proof.
+  intros log a U. unfold rec1, record. destruct (dup_id log a) eqn:D; cbn [fst]; [exact U|].
+  unfold ids_unique in *. rewrite map_app, filter_app. cbn [map filter]. change (a_id (norm a)) with (a_id a).
+  unfold dup_id in D. destruct (N.eqb (a_id a) 0) eqn:Z0; cbn [negb andb] in *.
+  - now rewrite app_nil_r.
+  - apply NoDup_app_one; [exact U|].
+    intros Hin. apply filter_In in Hin as [Hin _]. exact (has_id_in _ _ D Hin).
+Qed.
 Lemma newer_eq_trans : forall a b c, newer_eq a b = true -> newer_eq b c = true -> newer_eq a c = true.
 Proof.
   unfold newer_eq; intros a b c H1 H2.
@@ -109,15 +162,29 @@ Proof.
   eapply Permutation_in; [apply AttSort.Permuted_sort|]. apply filter_In. split; assumption.
 Qed.
 
-(** an attempt once recorded is listed by every later query it matches whose limit is not exhausted
+(** an attempt that was accepted is listed by every later query it matches whose limit is not exhausted
     by matching attempts - however many other attempts are recorded in between *)
 Theorem recorded_attempt_stays_listed : forall log0 ops1 a ops2 q,
   let log := log_after log0 (ops1 ++ ARec a :: ops2) in
+  snd (record (log_after log0 ops1) a) = true ->
   matches q (norm a) = true ->
   (length (filter (matches q) log) <= eff_limit q)%nat ->
   In (norm a) (list_attempts log q).
 Proof.
-  intros log0 ops1 a ops2 q log Hm Hl. apply list_attempts_complete_under_limit; [exact Hl| |exact Hm].
-  subst log. rewrite log_after_recorded. apply in_or_app. right.
-  unfold recorded. rewrite flat_map_app. apply in_or_app. right. cbn [flat_map]. left. reflexivity.
+  intros log0 ops1 a ops2 q log Hacc Hm Hl. apply list_attempts_complete_under_limit; [exact Hl| |exact Hm].
+  subst log. rewrite log_after_app. set (L1 := log_after log0 ops1) in *.
+  change (log_after L1 (ARec a :: ops2)) with (log_after (rec1 L1 a) ops2).
+  destruct (log_after_ext ops2 (rec1 L1 a)) as [ext E]. rewrite E.
+  apply in_or_app. left. unfold rec1, record in *. destruct (dup_id L1 a); cbn [fst snd] in *; [discriminate|].
+  apply in_or_app. right. left. reflexivity.
+Qed.
+
+Theorem log_after_unique : forall ops log, ids_unique log -> ids_unique (log_after log ops).
+Proof.
+  unfold log_after. induction ops as [|o ops IH]; intros log U; cbn [fold_left]; [exact U|].
+  apply IH. destruct o as [a|s n|q]; cbn [astep fst].
+  - apply rec1_unique. exact U.
+  - generalize (gen_from s (Z.to_nat n)). intros xs. revert log U.
+    induction xs as [|x xs IHx]; intros log U; cbn [fold_left]; [exact U|]. apply IHx. apply rec1_unique. exact U.
+  - exact U.
 Qed.
